@@ -86,14 +86,19 @@ def tag_rule(model: Model, rep, rule: str, only=None, skip=None):
     return n
 
 
-def _run_uniform(model: Model, modname, clsname, rd: RefdomInfo):
+def _run_uniform(model: Model, modname, clsname, rd: RefdomInfo,
+                 subdomains=False):
     cls = model.cls(modname, clsname)
     fn = cls.methods.get("_uniform")
     if fn is None:
         raise AnalysisError(f"{clsname}._uniform not found")
     cap: Dict[str, Any] = {}
     it = Interp(model, call_hook=make_hook(rd, cap))
+    it.assume_positive = lambda p: all(s_.startswith("n[")
+                                       for s_ in p.symbols())
     obj = mesh_obj(model, cls, rd)
+    if subdomains:
+        obj.attrs["_subdomains"] = {}
     try:
         it.call(fn, [], {}, self_obj=obj)
     except Raised as e:
@@ -240,8 +245,72 @@ TRI_RANK = {("vertex", 0): 0, ("vertex", 1): 1, ("vertex", 2): 2,
             ("facet", 0): 3, ("facet", 2): 4, ("facet", 1): 5}
 
 
+def _tet_table(model, rep, modname, clsname, rd):
+    """own old-cell -> children table of the tetrahedron: row r of a cell
+    must hold the position of the block that stores its r-th child"""
+    rule = "C12-R3"
+    cls, fn, kw, cap = _run_uniform(model, modname, clsname, rd,
+                                    subdomains=True)
+    from ..refcell import ARange, MASKS
+    t = kw["t"]
+    # positions of the blocks in hstack order
+    pos = []
+    off = Poly()
+    for c in t.children:
+        m = c.mask
+        ln = NT if not m else Poly.sym(f"n[{MASKS[m].name}]")
+        pos.append((m, off, ln))
+        off = off + ln
+    masks = [m for m in dict.fromkeys(c.mask for c in t.children) if m]
+    # the masks are one-hot (checked above): their counts add up to nt
+    last = Poly.sym(f"n[{MASKS[masks[-1]].name}]")
+    rest = NT
+    for m in masks[:-1]:
+        rest = rest - Poly.sym(f"n[{MASKS[m].name}]")
+    env = {next(iter(last.symbols())): rest}
+    norm = lambda p: Poly.coerce(p).subs(env)  # noqa: E731
+    stores = [s_ for s_ in cap.get("stores", [])
+              if isinstance(s_[0], int) or (isinstance(s_[0], tuple)
+                                            and isinstance(s_[0][0], int))]
+    if not stores:
+        raise AnalysisError(f"{clsname}._uniform: child table not built")
+    nwhole = sum(1 for c in t.children if not c.mask)
+    per_mask = {m: [p for p in pos if p[0] == m] for m in masks}
+    for ix, val in stores:
+        if isinstance(ix, int):
+            r, m = ix, None
+        else:
+            r, sel = ix
+            m = next((k for k, v in MASKS.items() if v is sel), None)
+            if m is None:
+                raise AnalysisError("child table: unknown column selector")
+        if isinstance(val, IdxArr) and val.kind == "cell":
+            lo = val.offset
+        elif isinstance(val, ARange):
+            lo = val.lo
+        else:
+            raise AnalysisError(f"child table value {val!r}")
+        if m is None:
+            want = pos[r][1] if r < nwhole else None
+        else:
+            k = r - nwhole
+            want = per_mask[m][k][1] if 0 <= k < len(per_mask[m]) else None
+        cons = f"{clsname}:child-table[row {r}" + (
+            f", variant {MASKS[m].name}]" if m else "]")
+        if want is not None and norm(lo) == norm(want):
+            rep.ok(rule, cons, f"cells "
+                   f"{'of the variant' if m else ''} -> new cells starting "
+                   f"at {want}: the block holding their child {r}")
+        else:
+            rep.fail(rule, fn.path, f"{clsname}._uniform", cons,
+                     f"row {r} of the old-cell to children table points to "
+                     f"new cells starting at {lo}, but child {r} of those "
+                     f"cells is stored from {want} on: named subdomains "
+                     f"pick up another cell's child", fn.lineno)
+
+
 def _facet_maps(rep, rule, clsname, path, line, rd: RefdomInfo, kw, cap,
-                sorted_cells: bool):
+                sorted_cells: bool, tag: str = ""):
     stores = [s for s in cap.get("stores", [])
               if isinstance(s[1], tuple) and s[1] and s[1][0] == "childfacet"]
     if not stores:
@@ -269,7 +338,7 @@ def _facet_maps(rep, rule, clsname, path, line, rd: RefdomInfo, kw, cap,
         mid = tuple((a[d] + b_[d]) / 2 for d in range(rd.dim))
         halves = {frozenset((tuple(a), mid)), frozenset((mid, tuple(b_)))}
         got = {frozenset(tuple(p) for p in e[3]) for e in ent}
-        cons = f"{clsname}:facet-map[{k}]"
+        cons = f"{clsname}:facet-map[{k}]" + (f"[{tag}]" if tag else "")
         if len(ent) == 2 and got == halves and \
                 {e[0] for e in ent} == {0, 1}:
             rep.ok(rule, cons, f"parent facet {k} -> child facets "
@@ -485,10 +554,22 @@ def run(model: Model, rep, tier: str) -> None:
                                         refdoms[rdn])
         _child_geometry(rep, "C12-R3", clsname, fn.path, fn.lineno,
                         refdoms[rdn], kw, cap)
-        if clsname in ("MeshTri1", "MeshQuad1"):
+        if clsname == "MeshQuad1":
             _facet_maps(rep, "C12-R3", clsname, fn.path, fn.lineno,
-                        refdoms[rdn], kw, cap,
-                        sorted_cells=(clsname == "MeshTri1"))
+                        refdoms[rdn], kw, cap, sorted_cells=False)
+        if clsname == "MeshTri1":
+            # default meshes re-sort every child; meshes whose sorting was
+            # switched off (oriented(), loaded with sort_t=False) keep the
+            # children exactly as listed: the facet table must be right
+            # for both
+            _facet_maps(rep, "C12-R3", clsname, fn.path, fn.lineno,
+                        refdoms[rdn], kw, cap, sorted_cells=True,
+                        tag="sorted cells")
+            _facet_maps(rep, "C12-R3", clsname, fn.path, fn.lineno,
+                        refdoms[rdn], kw, cap, sorted_cells=False,
+                        tag="cells as listed (sort_t=False)")
+        if clsname == "MeshTet1":
+            _tet_table(model, rep, modname, clsname, refdoms[rdn])
     _r4_warnings(model, rep)
     rep.require_min("C12-R1", 10)
     rep.require_min("C12-R2", 5)
